@@ -272,4 +272,18 @@ theorem finding_C07_F1 :
     (removeUnproductiveOld (removeUnreachable deadCycle) 5).rules = deadCycle.rules ∧
     (reduce deadCycle).rules = [] := by decide
 
+/-- productivity (`Trim`, not only `AllReach`) is needed for `C07_min_minimal`: the dead cycle
+    (all states reachable, none productive, empty language) is "minimised" to one state while
+    the empty table, with the same language, has none.  (Not a defect: `minimise` is documented
+    for reduced automata, and `reduce` — with fix C07-F1 — returns the empty table here.) -/
+example : AllReach deadCycle ∧ ¬ Trim deadCycle ∧
+    (∃ M, minimise deadCycle = some M ∧ numStates M = 1) ∧
+    numStates ({ rules := [], finals := [] } : DFTA String Nat) = 0 ∧
+    ∀ t, ({ rules := [], finals := [] } : DFTA String Nat).accepts t = deadCycle.accepts t := by
+  refine ⟨by unfold AllReach; decide, by unfold Trim AllReach; decide, ⟨_, rfl, by decide⟩, by decide, ?_⟩
+  intro t
+  unfold accepts
+  cases run deadCycle t <;> cases run ({ rules := [], finals := [] } : DFTA String Nat) t <;>
+    simp [deadCycle]
+
 end PS.C07
